@@ -124,6 +124,12 @@ class PermutingPool:
         return out
 
 
+def shared_logl(x, offset=7.0, tgt=None):
+    """ONE module-level likelihood for every sampler that uses via="shared": target and additive constant arrive as the user's
+    extra keyword arguments (log_likelihood_kwargs); anything keyed on the function object alone confuses two samplers."""
+    return tgt._logl_point(x) + offset
+
+
 DEFAULTS = dict(n_dim=2, n_particles=8, ess_ratio=2.0, volume_variation=None, evaluation="scalar", periodic=None,
                 reflective=None, pool=None, clustering=True, normalize=True, cluster_every=1, split_threshold=1.0,
                 n_max_clusters=None, sample="tpcn", n_steps=None, n_max_steps=None, resample="mult",
@@ -158,7 +164,10 @@ def build_sampler(conf: dict, rec: psrun.Recorder | None, out_dir=None):
                 return (r[0] + offset,) + tuple(r[1:])
             return r + offset
 
-        if via == "kwargs":
+        if via == "shared":
+            ll = shared_logl
+            extra = dict(log_likelihood_kwargs={"offset": float(c["shift"]), "tgt": tgt})
+        elif via == "kwargs":
             def ll(x, offset=wrong):  # noqa: E306
                 return _plus(base_ll(x), offset)
             extra = dict(log_likelihood_kwargs={"offset": float(c["shift"])})
